@@ -833,6 +833,12 @@ func AddStructDefaults(t *rapid.T, m *Model) int {
 					if v, has := obj[tf.Name]; has && (v == nil || (tf.Type.Const != nil && !keepConstants)) {
 						delete(obj, tf.Name)
 					}
+					// a single-member enum is a constant for CUE: naming it makes the
+					// default struct as concrete as the referred definition and the
+					// disjunction collapses (cog then sees no reference at all)
+					if rtf := m.Resolve(tf.Type); rtf.Kind == KEnum && len(rtf.Members) < 2 {
+						delete(obj, tf.Name)
+					}
 				}
 				// an EMPTY struct default (`*{} | #B`) is dropped by the CUE front
 				// end like every empty value inside a default (listed under C10):
